@@ -207,6 +207,8 @@ def explore_all(ctx, prop, exe_san, exe, variant, cov, dist):
                     cov["samples"].append({"fanout": m["fanout"], "n": m["n"], "schedule": " ".join(r["choices"]),
                                            "trace": [l[3:] for l in b if l.startswith("ev ")], "peak": m["peak"]})
             for p, sig, what in sched.offenders(r):
+                if r["case"].get("timed") and sig == "output-not-delivered":
+                    continue              # a host given up on has, by design, not been relayed completely
                 if p in (prop, "*"):
                     if not is_known(sig):
                         newcount[0] += 1
@@ -272,6 +274,33 @@ def explore_all(ctx, prop, exe_san, exe, variant, cov, dist):
             memcases.append(c)
         dist["yield"]["fan,mem"] = len(memcases)
         consume(sched.run_many(ctx.exe_mem, memcases, ctx.scratch))
+
+    # 1c. timed scenarios (virtual clock, -t / -u, hosts that hang, keep talking, outlive their streams, ignore
+    #     SIGTERM): the same monitors.  A connection is in flight from connectBegin until rcmd_destroy() has RETURNED
+    #     having reaped the command -- not when the worker merely gave up on the host.
+    if newcount[0] < 30:
+        from vlib import timedcheck as T
+        tcases = []
+        for _ in range(500 if ctx.quick() else 5000):
+            ct, ut = rng.choice([1, 2, 3]), rng.choice([1, 1, 2, 3])
+            A = T.alphabet(ct, ut)
+            n = rng.randrange(2, 6)
+            f = rng.randrange(1, n) if rng.random() < 0.85 else n
+            keys = rng.choices(["ok", "ok2", "hang-after", "chatty", "chatty-odd", "chatty-ends", "outlives", "stubborn",
+                                "cmd-far", "cmd-over", "hang-connect", "refuse", "close-out-early", "silent"],
+                               [14, 6, 10, 8, 6, 5, 10, 10, 6, 4, 5, 4, 4, 4], k=n)
+            c = T.mk_case([A[k] for k in keys], f, ct, ut, rng.random() < 0.4, rng.randrange(1, 1 << 30),
+                          strategy=rng.choice(["uniform", "uniform", "starveD", "eagerD"]))
+            c["timed"] = True
+            if T.excluded(c):
+                continue
+            tcases.append(c)
+        dist["yield"]["fan (timed scenarios)"] = len(tcases)
+        for i in range(0, len(tcases), 1000):
+            chunk = tcases[i:i + 1000]
+            consume(sched.run_many(exe_san, chunk[::4], ctx.scratch) +
+                    sched.run_many(exe, [c for j, c in enumerate(chunk) if j % 4], ctx.scratch))
+        ctx.log("timed scenarios (-t/-u, hanging / talking / outliving / SIGTERM-ignoring hosts): %d runs" % len(tcases))
 
     # 2. random schedules
     nrand = 4000 if ctx.quick() else 40000
